@@ -247,6 +247,33 @@ def _expand(hist):
                 case,
                 size=len(hist) * 100 + len(json.dumps(case)),
             )
+    # the same probes (one per kind and id class) through a NEW Datastore object over the same file -- an
+    # orderly restart: nothing is registered in it yet (seeded: the first lookup registered handles for
+    # all listed buckets under the looked-up id, so later operations on B landed in A)
+    if backend != "memory":
+        firsts = {}
+        for op in probes:
+            firsts.setdefault((op[0], op[1]), op)
+        for op in firsts.values():
+            ds, mm = replay(backend, wdir, hist)
+            f0 = frame(ds, A_)
+            ds = S.reopen(ds, flush=True)
+            res = do_probe(ds, op)
+            f1 = frame(ds, A_)
+            u.transitions += 1
+            u.evaluations += 1
+            u.traces += 1
+            u.hist["probe_after_restart"] += 1
+            if f0 != f1:
+                chg = [b for b in f0 if f0[b] != f1.get(b)]
+                case = {"backend": backend, "history": [[b, list(o)] for b, o in hist], "probe": [list(x) if isinstance(x, tuple) else x for x in op], "alphabet": c["Ename"], "restart": True}
+                u.violation(
+                    f"{backend}:restart+{op[0]}:id-of-{op[1]}:other-bucket-changed",
+                    f"{backend} history {list(hist)}, restart, probe {op} on A ({res}) changed bucket(s) {chg}: before {[f0[b][1] for b in chg][:1]} after {[f1.get(b, (None, None))[1] for b in chg][:1]}",
+                    case,
+                    size=len(hist) * 100 + len(json.dumps(case)) + 50,
+                )
+        ds = None
     # rejected operations, issued while the last write of the history is still unobserved (buffered
     # on the lazily committing store): the frame expected is the one of the fully observed twin
     if hist:
@@ -314,6 +341,8 @@ def run_case(ctx, case):
     if "probe" in case:
         op = BL.tup(case["probe"])
         f0 = frame(ds, A_)
+        if case.get("restart"):
+            ds = S.reopen(ds, flush=True)
         res = do_probe(ds, op)
         f1 = frame(ds, A_)
     else:
